@@ -1,6 +1,7 @@
 package props
 
 import (
+	"strings"
 	"encoding/json"
 	"os"
 	"path/filepath"
@@ -60,6 +61,12 @@ func judgeC18(c *C18Case, cx *Ctx) *Violation {
 	for i := range c.Calls {
 		cc := c.Calls[i]
 		cc.A, cc.B = c.Pool[c.AIdx[i]], c.Pool[c.BIdx[i]]
+		if strings.HasPrefix(cc.Fn, "Minkowski") && len(first(cc.A))*len(first(cc.B)) > 150 {
+			// pattern x path parallelograms are united: 60 x 60 points take tens of minutes under
+			// the race detector. Sub-slices keep sharing the pool's point buffers.
+			a, b := first(cc.A), first(cc.B)
+			cc.A, cc.B = Paths{a[:min(len(a), 12)]}, Paths{b[:min(len(b), 12)]}
+		}
 		if cc.Fn == "Clipper64.ExecuteOC" || cc.Fn == "ClipperD.ExecuteOC" {
 			cc.Bo[1] = false
 		}
